@@ -343,6 +343,17 @@ class Evaluator:
             return a is b or (a is None and b is None)
         if isinstance(op, ast.IsNot):
             return not (a is b or (a is None and b is None))
+        try:
+            if isinstance(op, ast.Gt):
+                return a > b
+            if isinstance(op, ast.GtE):
+                return a >= b
+            if isinstance(op, ast.Lt):
+                return a < b
+            if isinstance(op, ast.LtE):
+                return a <= b
+        except TypeError:
+            raise Unsupported('ordering of %r and %r' % (a, b))
         raise Unsupported('comparison operator')
 
     def call(self, n, env):
